@@ -93,6 +93,9 @@ def _invalidates_cache(f):
 
 class rrulebase(object):
     def __init__(self, cache=False):
+        # Bumped whenever the recurrence is modified, so that iterators
+        # started before the modification leave the shared state alone.
+        self._generation = 0
         if cache:
             self._cache = []
             self._cache_lock = _thread.allocate_lock()
@@ -111,6 +114,7 @@ class rrulebase(object):
             return self._iter_cached()
 
     def _invalidate_cache(self):
+        self._generation += 1
         if self._cache is not None:
             self._cache = []
             self._cache_complete = False
@@ -137,14 +141,17 @@ class rrulebase(object):
                         for j in range(10):
                             cache.append(advance_iterator(gen))
                     except StopIteration:
-                        self._cache_gen = gen = None
-                        self._cache_complete = True
+                        gen = None
+                        if cache is self._cache:
+                            # Unless the cache was invalidated meanwhile
+                            self._cache_gen = None
+                            self._cache_complete = True
                         break
                 finally:
                     release()
             yield cache[i]
             i += 1
-        while i < self._len:
+        while i < len(cache):
             yield cache[i]
             i += 1
 
@@ -1407,6 +1414,7 @@ class rruleset(rrulebase):
         self._exdate.append(exdate)
 
     def _iter(self):
+        generation = self._generation
         rlist = []
         self._rdate.sort()
         self._genitem(rlist, iter(self._rdate))
@@ -1436,7 +1444,8 @@ class rruleset(rrulebase):
             advance_iterator(ritem)
             if rlist and rlist[0] is ritem:
                 heapq.heapreplace(rlist, ritem)
-        self._len = total
+        if generation == self._generation:
+            self._len = total
 
 
 
